@@ -274,10 +274,10 @@ Definition prose_shape_ok (style : ngstyle) (d : str) : bool :=
   clean_ends d && negb (has_nl d).
 
 Definition written_shape_ok (style : ngstyle) (d' : str) : bool :=
-  token_free d' && negb (has_nl d') &&
+  token_free d' && negb (has_nl d') && clean_ends d' &&
   match style with
   | SGoogle => negb (Nat.ltb 3 (List.length d') && startswith [ch 123] d' && endswith [ch 125] d')
-               && negb (endswith [ch 58] d') && clean_ends d'
+               && negb (endswith [ch 58] d')
   | SNumpydoc => true
   end.
 
@@ -325,7 +325,9 @@ Definition entry_class (style : ngstyle) (name : str) (g : gparam) : option c01n
         else
           let after_value :=
               match written_doc name g with
-              | Some d' => if written_shape_ok style d' then None else Some N_prose_shape
+              | Some d' => if negb (written_shape_ok style d') then Some N_prose_shape
+                           else if optional_prefix d' && negb (startswith (L "Optional[") t) then Some N_prose_optional
+                           else None
               | None => Some (N_default_codec K_unmodelled)
               end in
           if writes_default name g then
@@ -339,7 +341,7 @@ Definition entry_class (style : ngstyle) (name : str) (g : gparam) : option c01n
                 match v with
                 | VStr s => if negb (str_eqb (unquote s) s) && negb (null_default v) then Some N_default_requoted
                             else if negb (str_eqb name return_type_name) && negb (kwargs_name name)
-                                    && code_quoted s && negb (null_default v) && negb (mem_c (ch 91) t)
+                                    && code_quoted s && negb (null_default v) && negb (contains [ch 91] t)
                             then Some N_code_default_untyped
                             else after_value
                 | _ => after_value
@@ -417,6 +419,86 @@ Definition guard_C01_ng (style : ngstyle) (i : ir) : bool :=
   in_domain_ng i && match finding_class_C01_ng style i with None => true | Some _ => false end.
 
 (* ------------------------------------------------------------------ *)
+(* the blocks: what the scanner makes of the text of a guard IR          *)
+(* ------------------------------------------------------------------ *)
+
+(* the unit the scanner hands to _parse for one entry *)
+Definition unit_of_entry (style : ngstyle) (name : str) (g : gparam) : list str :=
+  match fget (g_typ g) with
+  | Some t =>
+    match written_doc name g with
+    | Some d' => match style with
+                 | SGoogle => [L "  " ++ name ++ L " (" ++ t ++ L "): " ++ d']
+                 | SNumpydoc => [name ++ L " : " ++ t; tab ++ d']
+                 end
+    | None => match style with
+              | SGoogle => [L "  " ++ name ++ L " (" ++ t ++ L "): "]
+              | SNumpydoc => [name ++ L " : " ++ t]
+              end
+    end
+  | None => []
+  end.
+
+Definition units_of_params (style : ngstyle) (ps : list (str * gparam)) : list (list str) :=
+  map (fun np => unit_of_entry style (fst np) (snd np)) ps.
+
+Definition return_lines (g : gparam) : option (str * str) :=
+  match fget (g_typ g), written_doc return_type_name g with
+  | Some t, Some d' => Some (t, d')
+  | _, _ => None
+  end.
+
+(* the scanned dict for the text of a guard IR (level B of the design: characters to blocks) *)
+Definition scanned_of (style : ngstyle) (i : ir) : scanned :=
+  let doc := match ir_doc i with Has d => d | _ => [] end in
+  let units := units_of_params style (ir_params i) in
+  let rl := match ir_returns i with Has g => return_lines g | _ => None end in
+  match style with
+  | SGoogle =>
+    mkScanned doc units
+              (match rl with Some (t, d') => RLines [L "  " ++ t ++ L ":"; L "   " ++ d'] | None => RUnits [] end)
+              None
+  | SNumpydoc =>
+    match rl, ir_params i with
+    | Some (t, d'), [] => mkScanned doc [] (RUnits [[t; tab ++ d']; [[]]]) None
+    | Some (t, d'), _ => mkScanned doc (units ++ [[[]]]) (RUnits [[t; tab ++ d']; [[]]]) None
+    | None, [] => mkScanned doc [] (RUnits []) None
+    | None, _ => mkScanned doc (units ++ [[[]]; [[]]]) (RUnits []) None
+    end
+  end.
+
+Fixpoint units_eqb (a b : list (list str)) : bool :=
+  match a, b with
+  | [], [] => true
+  | x :: a', y :: b' => strs_eqb x y && units_eqb a' b'
+  | _, _ => false
+  end.
+
+Definition retv_eqb (a b : retv) : bool :=
+  match a, b with
+  | RLines x, RLines y => strs_eqb x y
+  | RUnits x, RUnits y => units_eqb x y
+  | _, _ => false
+  end.
+
+Definition scanned_eqb (a b : scanned) : bool :=
+  str_eqb (sc_doc a) (sc_doc b) && units_eqb (sc_args a) (sc_args b) && retv_eqb (sc_ret a) (sc_ret b)
+  && match sc_afterward a, sc_afterward b with
+     | None, None => true
+     | Some x, Some y => strs_eqb x y
+     | _, _ => false
+     end.
+
+(* the link between text and blocks, executable: the text is over the alphabet and the scanner returns scanned_of *)
+Definition scan_link_b (style : ngstyle) (i : ir) : bool :=
+  match text_of_o style i with
+  | Ok text =>
+    forallb in_alphabet text
+    && match scan_ng style text with Ok sc => scanned_eqb sc (scanned_of style i) | Err _ => false end
+  | Err _ => false
+  end.
+
+(* ------------------------------------------------------------------ *)
 (* wire                                                                 *)
 (* ------------------------------------------------------------------ *)
 
@@ -430,6 +512,7 @@ Definition run_c01ng (fn : sexp) (args : list sexp) : option sexp :=
       Some (if negb (in_domain_ng i) then sym "out-of-domain"
             else enc_option (fun k => enc_str (c01ng_class_name k)) (finding_class_C01_ng st i))
     else if is_sym "c01_text_ng" fn then Some (enc_outcome enc_str (text_of_o st i))
+    else if is_sym "c01_scan_link_ng" fn then Some (enc_bool (scan_link_b st i))
     else if is_sym "c01_holds_ng" fn then
       Some (match roundtrip st i with
             | RtHolds => sym "true"
